@@ -1,7 +1,8 @@
 (* C16 — Reflecting and white surfaces become boundary conditions on the right
    surfaces.  Only restatements; proofs are in C16/Proofs.v. *)
-From Coq Require Import List NArith ZArith Bool String Ascii Lia.
-From T4V Require Import Base.Str C16.Model C16.Proofs C16.Trcl.
+From Coq Require Import List NArith ZArith Bool String Ascii Lia Reals.
+From T4V Require Import Base.Str Base.Scalar C16.Model C16.Proofs C16.Trcl C16.LinkC13.
+From T4V Require C13.Model.
 Import ListNotations.
 Open Scope string_scope.
 
@@ -481,4 +482,111 @@ Proof.
   split; [vm_compute; reflexivity|]. split; [vm_compute; reflexivity|].
   split; [do 3 right; left; reflexivity|]. split; [reflexivity|]. split; [reflexivity|].
   vm_compute. reflexivity.
+Qed.
+
+(* ======================================================================== *)
+(* Linked with C13 (read-only).  C13.Model.finish is C13's model of the part of
+   convertMCNPGeometry that decides the SURF lines, for ARBITRARY volume tables
+   (equations with UNION / INTE operators and FICTIVE volumes: what FILL
+   development, unions and complements produce) over the real SurfaceT4
+   descriptors.  [block13] puts C16's block on top of it: the renumbering is
+   C13's, surf_used is C13's list of written ids, the dictionary [l] is C16's
+   conversionBoundCond ([bc_entries] of any table with distinct keys: cards,
+   implicit surfaces, TRCL and FILL copies).  The function run is C16's own:   *)
+Theorem C16_merge_entries_gen : forall dedup nb used l acc,
+  merge_entries dedup nb used l acc = merge_gen (rep dedup nb) used l acc.
+Proof. exact merge_entries_gen. Qed.
+Print Assumptions C16_merge_entries_gen.
+
+(* the main statement, linked: a flagged surface whose representative (C13's
+   renumbering) is used by a written volume has exactly one entry, of its kind,
+   on that representative, and the representative is kept in the writer's table
+   with the SAME DESCRIPTOR OVER THE REALS as the flagged surface (C13: only
+   equal descriptors are merged, C13_desc_eqb_sound) - the same locus, not just
+   the same class of a harness table *)
+Theorem C16_bc_designates_present_same_locus_linked :
+  forall (t : table) (surfs : list (Z * C13.Model.desc R)) (volus : list (Z * C13.Model.volu))
+         (u0 u1 : Z) (skip : bool),
+  NoDup (map fst t) ->
+  (forall k d, In (k, d) surfs -> (0 < k)%Z) ->
+  (forall k e, In (k, e) t -> e_flag e <> "" -> In (Z.of_N k) (map fst surfs)) ->
+  forall (l : list (kind * N)) (w : list Z) (bcs : list (kind * N)),
+  bc_entries t = Ok l ->
+  block13 RS skip surfs volus u0 u1 l = Some (w, Ok bcs) ->
+  forall k e, In (k, e) t -> (e_flag e = "*" \/ e_flag e = "+") ->
+  let k' := rep13 (ren_of RS skip surfs) k in
+  In (Z.of_N k') w ->
+  In (kind_of (e_flag e), k') bcs /\ count_key k' bcs = 1%nat /\
+  exists d s' v3,
+    C13.Model.finish RS skip surfs volus u0 u1 = C13.Model.Ok (s', v3, w) /\
+    In (Z.of_N k, d) surfs /\ In (Z.of_N k', d) s'.
+Proof.
+  intros t surfs volus u0 u1 skip Hnd Hpos Hknown l w bcs Hc Hr k e Hin Hf k' Hw.
+  eapply linked_designates; eauto.
+Qed.
+Print Assumptions C16_bc_designates_present_same_locus_linked.
+
+(* the converse, linked: every entry designates a written SURF whose descriptor
+   over the reals is that of a flagged surface of the entry's kind; no two
+   entries designate the same SURF *)
+Theorem C16_bc_entries_designate_written_linked :
+  forall (t : table) (surfs : list (Z * C13.Model.desc R)) (volus : list (Z * C13.Model.volu))
+         (u0 u1 : Z) (skip : bool),
+  NoDup (map fst t) ->
+  (forall k d, In (k, d) surfs -> (0 < k)%Z) ->
+  (forall k e, In (k, e) t -> e_flag e <> "" -> In (Z.of_N k) (map fst surfs)) ->
+  forall (l : list (kind * N)) (w : list Z) (bcs : list (kind * N)),
+  bc_entries t = Ok l ->
+  block13 RS skip surfs volus u0 u1 l = Some (w, Ok bcs) ->
+  NoDup (map snd bcs) /\
+  forall kd k', In (kd, k') bcs ->
+    In (Z.of_N k') w /\
+    exists k e d s' v3,
+      C13.Model.finish RS skip surfs volus u0 u1 = C13.Model.Ok (s', v3, w) /\
+      In (k, e) t /\ e_flag e <> "" /\
+      (e_flag e = "*" -> kd = Reflection) /\ (e_flag e = "+" -> kd = Cosinus) /\
+      In (Z.of_N k, d) surfs /\ In (Z.of_N k', d) s'.
+Proof.
+  intros t surfs volus u0 u1 skip Hnd Hpos Hknown l w bcs Hc Hr.
+  eapply linked_sound; eauto.
+Qed.
+Print Assumptions C16_bc_entries_designate_written_linked.
+
+(* two flagged surfaces of different kinds with the same written
+   representative: the block is a ValueError, whatever the volumes and the
+   scalar type *)
+Theorem C16_conflicting_flags_rejected_linked :
+  forall (T : Type) (S : Scalar T) (skip : bool) (surfs : list (Z * C13.Model.desc T))
+         (volus : list (Z * C13.Model.volu)) (u0 u1 : Z) (l : list (kind * N)) (w : list Z)
+         (out : res (list (kind * N))) (k1 k2 : N),
+  block13 S skip surfs volus u0 u1 l = Some (w, out) ->
+  In (Reflection, k1) l -> In (Cosinus, k2) l ->
+  rep13 (ren_of S skip surfs) k1 = rep13 (ren_of S skip surfs) k2 ->
+  In (Z.of_N (rep13 (ren_of S skip surfs) k1)) w ->
+  out = Err EValue.
+Proof. exact @block13_conflict. Qed.
+Print Assumptions C16_conflicting_flags_rejected_linked.
+
+(* non-vacuity of the linked statements on a FILL-shaped volume table: the
+   filled cell is the FICTIVE volume 10 (PLUS 1 MINUS 4), the universe element
+   is volume 6 (MINUS 3, INTE 10); *2 and *3 coincide.  Surface 3 is merged into
+   2, the block has the single entry 2, and SURF 1 2 4 are written *)
+Example C16_example_linked :
+  exists l,
+    bc_entries ex_table = Ok l /\
+    block13 RS false ex_surfs ex_volus 8 9 l =
+      Some ([1; 2; 4]%Z, Ok [(Reflection, 2%N)]) /\
+    rep13 (ren_of RS false ex_surfs) 3 = 2%N /\
+    NoDup (map fst ex_table) /\
+    (forall k d, In (k, d) ex_surfs -> (0 < k)%Z) /\
+    (forall k e, In (k, e) ex_table -> e_flag e <> "" -> In (Z.of_N k) (map fst ex_surfs)).
+Proof.
+  eexists. split; [vm_compute; reflexivity|].
+  split; [vm_compute; reflexivity|].
+  split; [vm_compute; reflexivity|].
+  split; [repeat constructor; cbn; intuition discriminate|].
+  split.
+  - intros k d H. repeat (destruct H as [H|H]; [inversion H; lia|]). destruct H.
+  - intros k e H Hf. repeat (destruct H as [H|H]; [inversion H; subst; cbn; auto 10|]).
+    destruct H.
 Qed.
